@@ -559,3 +559,11 @@ M("C23", "bandwidth optimiser takes the absolute value in place", "kill",
   [("emu_mps/optimatrix/optimiser.py", "    input_mat = torch.abs(input_matrix)", "    input_mat = input_matrix.abs_()")], "PURE")
 M("C09", "local eigen-solver returns without the convergence test for small blocks", "kill",
   [("emu_base/math/krylov_energy_min.py", "    result = krylov_energy_minimization_impl(\n", "    if psi.numel() <= 64:\n        energies, states = torch.linalg.eigh(torch.stack([op(e.view(psi.shape)).reshape(-1) for e in torch.eye(psi.numel(), dtype=psi.dtype)]))\n        return states[:, 0].reshape(psi.shape), energies[0].item()\n    result = krylov_energy_minimization_impl(\n")], "CONV-entry")
+M("C30", "amplitude gradient only for driven qubits", "kill",
+  [(TE, "            grad_omegas = torch.zeros_like(omegas)\n            for i in range(nqubits):", "            grad_omegas = torch.zeros_like(omegas)\n            for i in omegas.nonzero().flatten().tolist():")], "AUTOGRAD")
+M("C30", "detuning gradient skips the last qubit", "kill",
+  [(TE, "            grad_deltas = torch.zeros_like(deltas)\n            for i in range(nqubits):", "            grad_deltas = torch.zeros_like(deltas)\n            for i in range(nqubits - 1):")], "AUTOGRAD")
+M("C30", "twin: phase gradient only for driven qubits", "twin",
+  [(TE, "            grad_phis = torch.zeros_like(phis)\n            for i in range(nqubits):", "            grad_phis = torch.zeros_like(phis)\n            for i in omegas.nonzero().flatten().tolist():")])
+M("C31", "SparseOperator.__deepcopy__ reads Pulser-created fields the constructor never sets", "kill",
+  [("emu_sv/sparse_operator.py", "        memo[id(self)] = result\n        return result", "        memo[id(self)] = result\n        result._eigenstates = self._eigenstates\n        return result")], "APICOMPAT-basestate")
